@@ -13,7 +13,10 @@ RULE = ("cases = (schema, datum, disable_tuple_notation, reader options): union-
         "hints: none / (name, value) / '-type' / mixed / named-branches-only, 4 % wrong names; corr:union-index compares the bytes "
         "fastavro wrote (the index is in the bytes) with the model's elaboration; the statement itself is evaluated on fastavro's "
         "bytes with an independent decoder + the Python predicate `conforms`; corr:named-read = schemaless_reader under the 16 "
-        "combinations of the four options vs the model; corr:closure = read with return_named_type, write back, same bytes; "
+        "combinations of the four options vs the model; corr:closure = read with return_named_type, write back, same bytes -- "
+        "compared only where the statement's clause applies: every union value either sits under a NAMED branch (and came back as a "
+        "(name, value) pair) or is a plain value that, as normalised by the reader, re-resolves to the same branch under the statement's "
+        "own rule (otherwise counted as n/a: e.g. a bytearray written as 'bytes' comes back as bytes and fits an earlier fixed); "
         "non-trivial = the schema contains a union with >= 2 branches reached by the datum; distinct by (schema, datum, options)")
 TRUSTED = ["the schema reaches the model as the parsed dict fastavro.parse_schema returned (naming is C11's business)",
            "harness/unions.py: independent binary decoder (union indices) and the Python rendering of the statement's rule"]
@@ -22,7 +25,7 @@ ASSUMPTIONS = ["recursion limit / memory are not modelled",
                "(DESIGN F13, the code takes the later non-record branch); both are accepted by the predicate, the model mirrors the code"]
 PARTIAL = ["C09_closure: only the union node is proved (C09_closure_partial: a named branch read back as (name, value) re-selects the same index); "
            "the full statement (in a comment of props/C09.v) is evaluated on every applicable case both on the implementation (corr:closure) "
-           "and inside the model (the CL field of run_c09)",
+           "and inside the model (the CL field of run_c09); C09_closure_refuted is a lemma about data OUTSIDE the statement (unnamed branch)",
            "elab_typed's float side condition floats_ok (range of d2s/z2d outputs, rests on SpecFloat.binary_round) is evaluated "
            "in-model on every case, not proved"]
 
@@ -65,10 +68,19 @@ def reaches_union(v, s, named, tn):
 
 
 def closure_impl(c, data):
-    """read with return_named_type=True, write the result back: ('same'|'diff'|'raised', detail)"""
+    """read with return_named_type=True, write the result back: ('same'|'diff'|'raised'|'n/a', detail).
+    'n/a': the statement's clause does not cover the value (an unnamed-branch value that, once normalised by the reader,
+    re-resolves to another branch under the statement's own rule)"""
     r = CC.impl_read(c.schema_arg(), data, return_named_type=True)
     if r[0] != "ok":
         return "raised", "reader: " + str(r[1])
+    try:
+        tree, _ = U.decode_tree(c.parsed, c.named, data)
+        applicable = U.closure_applicable(r[1], c.parsed, c.named, tree)
+    except Exception as e:
+        return "raised", "harness: closure_applicable " + type(e).__name__
+    if not applicable:
+        return "n/a", ""
     w = CC.impl_write(c.schema_arg(), r[1], **c.wopts)
     if w[0] != "ok":
         return "raised", "writer on the value read back: " + str(w[1]) + " value=" + repr(r[1])[:300]
@@ -93,7 +105,7 @@ def check_case(ctx, c, m, stats):
         stats["written"] += 1
     else:
         stats["raised"] += 1
-        if U.conforms_x(c.datum, c.parsed, c.named, tn) and w[1] not in ("OverflowError", "error"):
+        if U.writable_x(c.datum, c.parsed, c.named, tn) and w[1] not in ("OverflowError", "error"):
             holds, why, feat = False, f"writer raised {w[1]} on a datum that conforms to the schema", "raises-on-conforming"
     if holds is False:
         ctx.violation("corr:union-index", c.to_json(), impl=impl_t[:1500], model=(m or "")[:1500],
@@ -127,9 +139,10 @@ def check_case(ctx, c, m, stats):
         ctx.count("corr:closure", key, nontrivial=nontriv)
         res, det = closure_impl(c, w[1])
         stats["closure"] += 1
-        if res != "same":
-            feat = res + (":bytearray-read-back-as-bytes" if "bytearray(" in repr(c.datum) else "")
-            ctx.violation("corr:closure", c.to_json(), impl=res + " " + det, model=pm["CL"][:600], signature="C09:closure:" + feat,
+        if res == "n/a":
+            stats["closure_na"] = stats.get("closure_na", 0) + 1
+        elif res != "same":
+            ctx.violation("corr:closure", c.to_json(), impl=res + " " + det, model=pm["CL"][:600], signature="C09:closure:" + res,
                           found_input=True, detail="read with return_named_type=True then write back does not reproduce the bytes")
         elif not pm["CL"].startswith("same"):
             ctx.violation("corr:closure", c.to_json(), impl="same", model=pm["CL"][:600], signature="C09:model-differs:closure",
@@ -152,6 +165,7 @@ def run(ctx):
     ctx.notes["hint_modes"] = modes
     ctx.notes["implementation_wrote/raised"] = [stats["written"], stats["raised"]]
     ctx.notes["closure_cases"] = stats["closure"]
+    ctx.notes["closure_not_applicable"] = stats.get("closure_na", 0)
     share = stats["raised"] / max(1, len(cases))
     ctx.notes["raise_share"] = round(share, 4)
     if share > 0.3:
@@ -186,20 +200,26 @@ WITNESSES = [
 def fixed_witnesses(ctx):
     import fastavro, json
     obs = {}
-    # closure witness: bytearray under [null, fixed(2), bytes] (see C09_closure_refuted)
+    # observation (outside the statement, see C09_closure_refuted): bytearray under [null, fixed(2), bytes] is written as
+    # bytes, read back as a bytes object, which re-resolves to the earlier fixed branch
     c = CC.Case()
     c.raw = ["null", {"type": "fixed", "name": "F", "size": 2}, "bytes"]
     c.named = {}
     c.parsed = fastavro.parse_schema(json.loads(json.dumps(c.raw)), c.named)
     c.datum, c.suffix, c.wopts, c.ropts, c.tag, c.use_raw = bytearray(b"ab"), b"", {}, {}, "witness:none", False
     w = CC.impl_write(c.parsed, c.datum)
-    ctx.count("corr:closure", ("witness", "bytearray"))
     if w[0] == "ok":
-        res, det = closure_impl(c, w[1])
-        if res != "same":
-            ctx.violation("corr:closure", c.to_json(), impl=res + " " + det, model="C09_closure_refuted: the model shows the same difference",
-                          signature="C09:closure:" + res + ":bytearray-read-back-as-bytes", found_input=True,
-                          detail="read with return_named_type=True then write back does not reproduce the bytes")
+        obs["closure_bytearray_under_bytes_after_fixed"] = closure_impl(c, w[1])[0]
+    # a '-type' entry naming no record branch of the union is an error even when a map branch would fit
+    named = {}
+    parsed = fastavro.parse_schema(json.loads(json.dumps([A, {"type": "map", "values": ["int", "string"]}])), named)
+    w = CC.impl_write(parsed, {"x": 1, "-type": "B"})
+    ctx.count("corr:union-index", ("witness", "type hint names no branch"))
+    if w[0] == "ok":
+        c = CC.Case()
+        c.raw, c.parsed, c.named, c.datum, c.suffix, c.wopts, c.ropts, c.tag, c.use_raw = [A, {"type": "map", "values": ["int", "string"]}], parsed, named, {"x": 1, "-type": "B"}, b"", {}, {}, "witness:none", False
+        ctx.violation("corr:union-index", c.to_json(), impl=w[1].hex(), model="E", signature="C09:union-choice:type-hint:no-such-branch-not-an-error",
+                      found_input=True, detail="a '-type' hint naming no record branch must be an error")
     for raw, datum, idx, what in WITNESSES:
         named = {}
         parsed = fastavro.parse_schema(json.loads(json.dumps(raw)), named)
@@ -245,7 +265,7 @@ def replay(ctx, rep):
             if ok and tn and c.tag.split(":")[-1] in ("none", "type", "named"):
                 res, det = closure_impl(c, w[1])
                 print("closure       :", res, det[:200])
-                ok = res == "same"
+                ok = res in ("same", "n/a")
     else:
-        ok = pm["status"] == "E" and not (U.conforms_x(c.datum, c.parsed, c.named, tn) and w[1] not in ("OverflowError", "error"))
+        ok = pm["status"] == "E" and not (U.writable_x(c.datum, c.parsed, c.named, tn) and w[1] not in ("OverflowError", "error"))
     return ok
